@@ -117,9 +117,10 @@ func (w *vc14rtWorld) owner(k vc14rtKey) (p *vc14rtProfSpec, d *vc14rtDevSpec) {
 
 func TestVerifC14rtRestart(t *testing.T) {
 	st := vstat.New("C14", "profiledb.restart",
-		"rapid histories of backend snapshots (devices move between profiles, keys change owner, profiles vanish), partial and full synchronisations of a profiledb.Default with a real *.pb cache file and lookups; after every full sync a second Default is opened on the file and all lookups by device id, human id, linked ip and dedicated ip are compared with the running database and with the snapshot (identity and every setting); the restarted database may take over and continue with partial syncs; non-trivial = a restart check where the file was overwritten by a later full sync or partial syncs preceded it; distinct by history",
+		"rapid histories of backend snapshots (devices move between profiles, keys change owner, profiles vanish), a drawn subset of the records is used (access verdicts, rate limiter, schedule, authentication) before it is synchronised and stored, partial and full synchronisations of a profiledb.Default with a real *.pb cache file and lookups; after every full sync a second Default is opened on the file and all lookups by device id, human id, linked ip and dedicated ip are compared with the running database and with the snapshot (identity and every setting); the restarted database may take over and continue with partial syncs; non-trivial = a restart check where the file was overwritten by a later full sync or partial syncs preceded it; distinct by history",
 		"restart-after-partial-syncs", "restart-of-overwritten-file", "restarted-db-continues-with-partial-sync",
-		"key-changed-owner-between-full-syncs", "found-by-dev", "found-by-linked", "found-by-ded", "found-by-human", "not-found")
+		"key-changed-owner-between-full-syncs", "found-by-dev", "found-by-linked", "found-by-ded", "found-by-human", "not-found",
+		"used-before-store", "used-before-store-with-domain-rules", "device-used-before-store")
 	st.Finish(t)
 	vc14rtNeedZones(t)
 
@@ -182,6 +183,8 @@ func TestVerifC14rtRestart(t *testing.T) {
 		fulls, partialsSinceFull := 0, 0
 		adopted := false
 		nontrivial := false
+		var usedP map[*agd.Profile]bool
+		var usedD map[*agd.Device]bool
 
 		sync := func(full bool) (respTime time.Time) {
 			if full {
@@ -195,6 +198,29 @@ func TestVerifC14rtRestart(t *testing.T) {
 			seq++
 			respTime = time.Unix(int64(1_700_000_000+seq), int64(rapid.IntRange(0, 999_999_999).Draw(t, "syncNsec")))
 			profs, devs := world.build(est)
+
+			// Refresh publishes the records before it stores them, so in
+			// production they serve queries first: use a drawn subset before
+			// handing them over.
+			up, ud, useDiffs := vc14rtUse(t, world, profs, devs, pr)
+			if len(useDiffs) > 0 {
+				fail("freshly built objects, used before the sync, do not behave as specified:\n  %s", strings.Join(useDiffs, "\n  "))
+			}
+
+			usedP, usedD = up, ud
+			if full && len(usedP) > 0 {
+				cl["used-before-store"] = true
+				for i, spec := range world.Profs {
+					if usedP[profs[i]] && spec.Access != nil && len(spec.Access.Rules) > 0 {
+						cl["used-before-store-with-domain-rules"] = true
+					}
+				}
+			}
+
+			if full && len(usedD) > 0 {
+				cl["device-used-before-store"] = true
+			}
+
 			if !full {
 				// What vanished on the backend is reported as deleted.
 				for _, id := range vc14rtProfIDs {
@@ -278,7 +304,11 @@ func TestVerifC14rtRestart(t *testing.T) {
 				var diffs []string
 				if !seenP[p] {
 					seenP[p] = true
+					// A record that was used before the sync has a running
+					// rate-limit counter.
+					pr.NoRLBehaviour = usedP[p]
 					diffs = append(diffs, vc14rtDiffProfile(wp, p, pr)...)
+					pr.NoRLBehaviour = false
 				}
 
 				if !seenD[d] {
